@@ -1098,7 +1098,16 @@ def r14(k: Kit) -> None:
         dec = k.func(f'public_key.SSHOpenSSHCertificate._decode_{opt}')
         g = k.cfg(enc)
         rets = [x for x in g.nodes if x.kind == 'return']
-        ok = bool(rets) and all(is_call(r.ast.value, ctor) for r in rets)
+
+        from ..flow import expr_sources
+
+        def made_by(r):
+            v = r.ast.value
+            if is_call(v, ctor):
+                return True
+            lv, fr = expr_sources(g, k.rd(enc), r.id, v)
+            return bool(lv) and all(is_call(x, ctor) for x in lv)
+        ok = bool(rets) and all(made_by(r) for r in rets)
         n += 1
         rep.check(ok, 'C15.R14', key(enc, f'written as {ctor}'),
                   f'return {ctor}(...)',
